@@ -310,9 +310,10 @@ let () =
         stat "snap_nodes" ps.nnodes;
         (* C03: structure *)
         check "C03";
-        if not (Model.wf_b s) then (
+        if not (Model.wf_full_b s) then (
           let why =
-            if not (Model.perm_inverse_b s.Model.s_v2l s.Model.s_l2v) then "var_to_level / level_to_var are not mutually inverse permutations"
+            if not (Model.terms_kind_b s) then "terminal set does not fit the diagram kind"
+            else if not (Model.perm_inverse_b s.Model.s_v2l s.Model.s_l2v) then "var_to_level / level_to_var are not mutually inverse permutations"
             else if not (List.for_all (fun (_, nd) -> Model.node_ok_b s nd) (Model.PositiveMap.elements s.Model.s_nodes)) then (
               let id, nd = List.find (fun (_, nd) -> not (Model.node_ok_b s nd)) (Model.PositiveMap.elements s.Model.s_nodes) in
               Printf.sprintf "node n%s (listed level %d, stored level %d, children %s) is not ordered/reduced/consistent"
@@ -452,6 +453,15 @@ let () =
               | [ "DROP"; a ] | [ "DROPT"; a ] -> invalidate (slot_of a)
               | [ "DROPALL" ] -> Hashtbl.reset tts; Hashtbl.reset fams; dropall_gc := true
               | [ "GC" ] -> gc_pending := true
+              | [ "FILL" ] ->
+                (* capacity probe: with every created node alive the store must be full at the first OOM *)
+                check "C05";
+                let kv = List.filter_map (fun t -> match String.split_on_char '=' t with [ k; v ] -> Some (k, int_of_string v) | _ -> None) (split_ws res) in
+                let cap = param_int c "cap" 0 in
+                (match List.assoc_opt "inner_at_end" kv with
+                 | Some k when cap > 0 && List.assoc_opt "oom" kv = Some 1 && k <> cap ->
+                   fail i "C05" "prop" (Printf.sprintf "capacity probe: out of memory with %d stored nodes in a manager of capacity %d (all of them referenced)" k cap)
+                 | _ -> ())
               | ("ORDER" | "ORDERSEQ") :: vs -> order_req := Some (List.map int_of_string vs)
               | "MKSUBST" :: sid :: pairs ->
                 let ps = List.filter_map (fun p -> match String.split_on_char '=' p with
